@@ -7,8 +7,8 @@ CONSTANTS
   Sized = {0}
   MaxRegs = 1
   CapIncC = 1
-  MaxSteps = 3
+  MaxSteps = 2
 VIEW View
 CONSTRAINT Bound
-INVARIANTS Struct CacheOK Refines IssuedOnce PanicAgrees CacheSelects
+INVARIANTS EmitPath Struct CacheOK Refines IssuedOnce PanicAgrees CacheSelects
 CHECK_DEADLOCK FALSE
